@@ -34,7 +34,7 @@ for tier in ('quick', 'thorough'):
     for key, case, why in r.v:
         cls = key.split(':')[0]
         if cls in CLASSES:
-            entries.setdefault(key, dict(property='C17', key=key, status='known', **{'class': cls},
+            entries.setdefault(key, dict(property='C17', key=key, status='known', recorded_relative_error=float(case['error'] / max(case['exact_abs'], case['floor'])), **{'class': cls},
                                          what='%s -- %s' % (why, CLASSES[cls][0]), tiers=[], why_not_fixed=CLASSES[cls][1]))
             if tier not in entries[key]['tiers']:
                 entries[key]['tiers'].append(tier)
